@@ -1918,6 +1918,9 @@ def main(repo="/repo", out="/verif/lean/TFV/Generated/Src", only=None):
             status[cfg["name"]] = f"not recognised: {e}"
         if not target.exists() or target.read_text() != text:
             target.write_text(text)
+    # the vectorised numpy kernels (straight-line whole-array code) have their own small translator
+    import np2lean
+    status.update(np2lean.main(repo=str(repo), out=str(out), only=only))
     return status
 
 
